@@ -3,7 +3,7 @@
    and nothing else. *)
 From AK Require Import Base.Prelude Base.Sx Bytes.Text Bytes.FabHeader Bytes.BinFile
   Reader.Select Reader.BoxRead Reader.Level Plotfile.TextHeader Taste.Taste Writers.Colander Writers.Combine Writers.Chef Writers.Chk2plt
-  Array.Paint Mandoline.Plate Whip.Whip Pestle.Pestle Point.PointQuery.
+  Array.Paint Mandoline.Plate Mandoline.Slice3D Whip.Whip Pestle.Pestle Point.PointQuery.
 
 Definition as_Zs := as_list as_Z.
 Definition as_optZ := as_opt as_Z.
@@ -394,6 +394,36 @@ Definition e_chk2plt_level (s : sx) : sx :=
   | _ => bad_request
   end.
 
+(* ---- C07: mandoline 3D slice (array output) ----
+   request: (levels limit cn P dom_lo dom_hi ncomp nx ny), levels = lists of (lo hi (component bytes ...));
+   result: (left right), each a list over pixels (x major) of () or ((words...) normal level) *)
+Definition dec_sbox (s : sx) : option sbox :=
+  match s with
+  | SL [lo; hi; comps] => do lo <- as_Zs lo; do hi <- as_Zs hi; do c <- as_Bs comps;
+                          Some {| sb_lo := lo; sb_hi := hi; sb_comps := c |}
+  | _ => None
+  end.
+
+Definition enc_sample (o : option sample) : sx :=
+  match o with
+  | None => SL []
+  | Some (ws, n, l) => SL [of_list SB ws; SZ n; SZ l]
+  end.
+
+Definition e_slice3d (s : sx) : sx :=
+  match s with
+  | SL [lvs; SZ limit; SZ cn; SZ P; SZ dlo; SZ dhi; SZ ncomp; SZ nx; SZ ny] =>
+      req (as_list (as_list dec_sbox) lvs)
+          (fun lvs =>
+             let cnn := Z.to_nat cn in
+             let cx := match cnn with O => 1%nat | _ => 0%nat end in
+             let cy := match cnn with 2%nat => 1%nat | _ => 2%nat end in
+             let r := slice3d (Z.to_nat limit) cnn cx cy P dlo dhi lvs (Z.to_nat ncomp) in
+             ok (SL [of_list enc_sample (render_side (fst r) (Z.to_nat nx) (Z.to_nat ny));
+                     of_list enc_sample (render_side (snd r) (Z.to_nat nx) (Z.to_nat ny))]))
+  | _ => bad_request
+  end.
+
 Definition entries : list (string * (sx -> sx)) :=
   [ ("getitem", e_getitem);
     ("iter_all", e_iter_all);
@@ -417,7 +447,8 @@ Definition entries : list (string * (sx -> sx)) :=
     ("point", e_point);
     ("combine", e_combine);
     ("chef", e_chef);
-    ("chk2plt_level", e_chk2plt_level)
+    ("chk2plt_level", e_chk2plt_level);
+    ("slice3d", e_slice3d)
   ]%string.
 
 Fixpoint find_entry (name : string) (l : list (string * (sx -> sx))) : option (sx -> sx) :=
